@@ -9,10 +9,13 @@ pub static mut EXIT_CODE: Option<i32> = None;
 /// (a plain flag, not a function pointer: CBMC's function-pointer removal produced spurious dealloc failures)
 pub static mut AT_EXIT_C16: bool = false;
 pub struct Stdin;
+pub struct ReadErr;
 pub fn stdin() -> Stdin { Stdin }
 impl Stdin {
     /// POSIX: at end of input read_line returns Ok(0), forever.
-    pub fn read_line(&self, buf: &mut String) -> std::io::Result<usize> {
+    /// (the error type is a unit struct: std::io::Error's drop glue made CBMC report spurious deallocations;
+    /// the engine only distinguishes Ok(0) / Ok(n) / Err(_))
+    pub fn read_line(&self, buf: &mut String) -> Result<usize, ReadErr> {
         unsafe {
             if SCRIPT_POS < SCRIPT_LEN {
                 let l = SCRIPT[SCRIPT_POS]; SCRIPT_POS += 1;
